@@ -249,8 +249,8 @@ def naive_oracle(spec):
 
 
 SUBS = [
-    Sub('gamma', gamma_case, gamma_oracle, {'quick': 300, 'thorough': 6000}, {'quick': 12, 'thorough': 16},
+    Sub('gamma', gamma_case, gamma_oracle, {'quick': 800, 'thorough': 6000}, {'quick': 12, 'thorough': 16},
         doc='all e_* results vs ref_gamma', max_skip_frac=0.3),
-    Sub('naive', naive_case, naive_oracle, {'quick': 200, 'thorough': 3000}, {'quick': 2, 'thorough': 4},
+    Sub('naive', naive_case, naive_oracle, {'quick': 500, 'thorough': 3000}, {'quick': 2, 'thorough': 4},
         doc='S=0 equals the naive standard error (numpy)'),
 ]
